@@ -63,8 +63,11 @@ def run(model, col, tier):
         f = dflt[1]
         for evs, status in paths(f.body):
             if status == "raise":
-                conds = [(" ".join(unparse(e.node).split()), e.val) for e in evs if e.kind == "cond"]
-                if not conds or all("isinstance" in t and "Instruction" in t and v for t, v in conds):
+                from ..paths import cond_atoms
+
+                atoms = {k: v for k, v in cond_atoms(evs).items() if " and " not in k and " or " not in k}
+                # the refusal may depend on nothing but `obj` being an instruction
+                if all(k.startswith("isinstance(") and k.endswith("Instruction)") and v for k, v in atoms.items()):
                     dflt_raises_for_instr = True
     handled = {}
     for ci in classes:
@@ -262,3 +265,8 @@ def run(model, col, tier):
         if ob.rule == "R07.3":
             ob.rule = "R06.6"
             col.obligations.append(ob)
+    # ---------------- R06.7 immediates decode to the constant (= R19.1 + R19.4) ----
+    from . import c19
+
+    c19.check_signed(model, col, "R06.7")
+    c19.check_encoder_shape(model, col, "R06.7")
